@@ -51,6 +51,8 @@ namespace occa {
    private:
     udim_t computeReserved(const udim_t align) const;
 
+    void reallocate(const udim_t bytes);
+
     virtual modeBuffer_t* makeBuffer()=0;
     virtual void setPtr(modeMemory_t* mem, modeBuffer_t* buf, const dim_t offset)=0;
     virtual void memcpy(modeBuffer_t* dst, const dim_t dstOffset,
